@@ -190,20 +190,20 @@ def writeMsg (s : MsgState) (e : Entropy) (outer : Bool) : PW × MsgState :=
     | none => p) p
   -- multipart layers
   let p := if outer then ((p.startMP mimeSigned e.bSigned e.bSigned).1).str (crlf ++ crlf) else p
-  let given (cached : Bytes) : Bytes := if !s.boundary.isEmpty then s.boundary else cached
+  let given (p : PW) (cached : Bytes) : Bytes := if !s.boundary.isEmpty && p.depth == 0 then s.boundary else cached
   let (p, s) :=
     if hasMixed s then
-      let (p, b) := p.startMP (sb "mixed") (given s.bMixed) e.bMixed
+      let (p, b) := p.startMP (sb "mixed") (given p s.bMixed) e.bMixed
       (if p.depth == 1 then p.str (crlf ++ crlf) else p, { s with bMixed := b })
     else (p, s)
   let (p, s) :=
     if hasRelated s then
-      let (p, b) := p.startMP (sb "related") (given s.bRelated) e.bRelated
+      let (p, b) := p.startMP (sb "related") (given p s.bRelated) e.bRelated
       (if p.depth == 1 then p.str (crlf ++ crlf) else p, { s with bRelated := b })
     else (p, s)
   let (p, s) :=
     if hasAlt s then
-      let (p, b) := p.startMP (sb "alternative") (given s.bAlt) e.bAlt
+      let (p, b) := p.startMP (sb "alternative") (given p s.bAlt) e.bAlt
       (if p.depth == 1 then p.str (crlf ++ crlf) else p, { s with bAlt := b })
     else (p, s)
   let p := (s.parts.filter (fun x => !x.deleted && !x.smime)).foldl (fun p x => p.writePart s x) p
